@@ -289,7 +289,8 @@ func c04Signature(r *zsim.Run) {
 				body := zsim.Pick(o, `{"a":1}`, "", "payload")
 				now := time.Now().Unix()
 				tol := int64(tolerance / time.Second)
-				off := zsim.Pick(o, int64(0), 0, -tol+2, tol-2, -tol-2, tol+2)
+				// (far-away timestamps too: offsets that overflow when turned into nanoseconds)
+				off := zsim.Pick(o, int64(0), 0, -tol+2, tol-2, -tol-2, tol+2, 0, 0, 1<<55, -(1 << 55), 1<<56+3, -(1<<55)+tol/2, 1<<34)
 				ts := fmt.Sprint(now + off)
 				key := []byte(fmt.Sprintf("hmac-key-%d-%d", c, i))
 				sum := sha256.Sum256([]byte(body))
